@@ -119,9 +119,17 @@ def eval_expression(expr: str, context: dict) -> Any:
     # We search for all variable names starting with $, remove the $ and add
     # the value in the dict for eval
     expr_locals = {}
-    regex_pattern = r"\$([a-zA-Z_][a-zA-Z0-9_]*)"
-    var_names = re.findall(regex_pattern, expr)
-    updated_expr = re.sub(regex_pattern, r"var_\1", expr)
+    # (string literals are left alone: a `$name` inside a string is plain text)
+    regex_pattern = r"\$(?P<var>[a-zA-Z_][a-zA-Z0-9_]*)"
+    var_names = []
+
+    def _replace_var(match):
+        if match.group("var") is None:
+            return match.group(0)
+        var_names.append(match.group("var"))
+        return "var_" + match.group("var")
+
+    updated_expr = re.sub(string_pattern + "|" + regex_pattern, _replace_var, expr)
 
     for var_name in var_names:
         # if we've already computed the value, we skip
